@@ -24,7 +24,7 @@ ASSUMPTIONS = ['initial nodes exist in G, are distinct, and infected/recovered s
 BUDGET = {'quick': 150, 'thorough': 1200}
 CHUNK = {'quick': 40, 'thorough': 200}
 SIMS = simreg.SIR_SIMS + simreg.SIS_SIMS
-REQUIRED = ['get_infected_nodes_checked', 'barrier_bounds_checked', 'barrier_cases_with_shielded_nodes', 'start_rows_checked', 'form_pairs_compared', 'rho_calls_checked', 'both_rejections_checked', 'wrapper_pairs_compared']
+REQUIRED = ['get_infected_nodes_checked', 'barrier_bounds_checked', 'barrier_cases_with_shielded_nodes', 'start_rows_checked', 'form_pairs_compared', 'rho_calls_checked', 'both_rejections_checked', 'both_rejections_with_initial_recovereds', 'wrapper_pairs_compared']
 MINE = lambda pred: pred in c04.START_PREDS or pred == 'full_data_object_returned'
 
 
@@ -247,7 +247,11 @@ def run_case(case):
             val = list(call.I0)
         kw = dict(call.kw)
         kw['initial_infecteds'] = val
-        kw.pop('initial_recovereds', None)
+        if case['seed'] % 2 or not kw.get('initial_recovereds'):
+            kw.pop('initial_recovereds', None)
+        else:
+            # the request is just as contradictory when some nodes are also given as recovered
+            bump(res, 'both_rejections_with_initial_recovereds')
         kw['rho'] = case['rho']
         bump(res, 'both_rejections_checked')
         try:
